@@ -51,8 +51,11 @@ def _worker_init() -> None:
 
     faulthandler.enable(all_threads=True)  # a crash inside JAX/XLA leaves the Python stacks on stderr
     import gc
+    import threading
 
     gc.disable()
+    # XLA compiles on the calling thread, i.e. on actor threads; give them room (address space only)
+    threading.stack_size(64 * 1024 * 1024)
 
     logging.getLogger('jax._src.debugging').setLevel(logging.CRITICAL)
     logging.getLogger('jax').setLevel(logging.CRITICAL)
